@@ -7,7 +7,7 @@ PROPS["C02"] = {
     "rule": "cases = documents built through the public API (construction verified by observation against the model): every leaf of the full "
             "alphabet (integer boundaries 2^k+-1 and 10^k, 10^k-1 in unsigned and signed storage, float/double boundary values incl. NaN/Inf/denormals, "
             "the 256 one-byte strings, the all-bytes string, raw values incl. the empty one) alone and inside [x], {\"k\":x}, [x,x]; every such string as a key; "
-            "all trees with <= N nodes (quick 3, thorough 4) over a reduced alphabet; nesting chains of depth 1..12 (thorough: 100, 300). Each is serialized "
+            "all trees with <= N nodes (quick 3, thorough 4) over a reduced alphabet (thorough adds every 5-node tree with a 7-leaf alphabet from depth 2, unsanitized build); nesting chains of depth 1..12 (thorough: 100, 300). Each is serialized "
             "compact and pretty into std::string, large char buffer, std::ostream, byte-wise custom writer, a writer that stops accepting, Arduino String and Print, "
             "fixed char arrays, and every capacity 0..length+2 (exact heap block under ASan and window of a sentinel buffer). "
             "non-trivial = document with a container, or a string needing an escape, or an integer beyond 32 bits, or a float printed with a fraction/exponent/null; distinct by case key",
@@ -21,6 +21,8 @@ PROPS["C02"] = {
                     "Arduino String / Print are the stubs of extras/tests/Helpers (String capacity raised with limitCapacityTo)",
                     "default configuration (ENABLE_NAN=0, ENABLE_INFINITY=0, 2-byte string lengths, 4-byte slot ids)"],
     "quick": [{"src": "checks/dx.cpp", "mode": "json", "arduino": True, "deps": _DX_DEPS}],
-    "thorough": [{"src": "checks/dx.cpp", "mode": "json", "arduino": True, "deps": _DX_DEPS}],
+    "thorough": [{"src": "checks/dx.cpp", "mode": "json", "arduino": True, "deps": _DX_DEPS},
+                 # second pass: all 5-node trees (6-leaf alphabet below depth 2), -O2 build without sanitizers (sentinel windows still detect overruns)
+                 {"src": "checks/dx.cpp", "mode": "json", "flavour": "fast", "arduino": True, "deps": _DX_DEPS, "args": ["--exact=5", "--deepfrom=2"]}],
     "thorough_deadline": 780,
 }
